@@ -4,6 +4,6 @@ CONSTANTS F = 2
   Variant = "asCoded"
   Steps = {2}
   MaxN = 16
-INVARIANTS Valid Faithful FaithfulAnyReader Enumerates EarlyExit ReadersAgree EmptyNoTree RejectsExactly MachineIsFunction TailShape NothingLost TailValid Bounded CapIsDead RootDepthPositive
+INVARIANTS Valid Faithful FaithfulAnyReader Enumerates EarlyExit Reentrant ReadersAgree EmptyNoTree RejectsExactly MachineIsFunction TailShape NothingLost TailValid Bounded CapIsDead RootDepthPositive
 PROPERTIES Terminates
 CHECK_DEADLOCK FALSE
